@@ -212,6 +212,72 @@ pub fn all_cases() -> Vec<Case> {
             v.push(Case { class: format!("unknown-{field}"), label: format!("{side}/{field}={value:?}"), server_json: sj.to_string(), client_json: cj.to_string(), expect: None, failing_side: side.into(), canary_tcp: false, canary_udp: false });
         }
     }
+    // E. transport sections: none / ssl / ws / ssl + ws / quic for every protocol, with a flow through each; with a quic section
+    //    the Shadowsocks modes quic and tcp_and_quic open the QUIC endpoint (a UDP socket), VMess and Trojan open TCP and QUIC
+    let section = |j: &str, server: bool, which: &str| -> String {
+        let mut v: serde_json::Value = serde_json::from_str(j).unwrap();
+        let ssl = if server { serde_json::json!({"certificateFile": CERT, "keyFile": KEY, "serverName": "sim.test"}) } else { serde_json::json!({"certificateFile": CERT, "serverName": "sim.test"}) };
+        let ws = serde_json::json!({"header": {"Host": "sim.test"}, "path": "/ws"});
+        let t = if server { &mut v[0] } else { &mut v["servers"][0] };
+        for part in which.split('+') {
+            match part {
+                "ssl" => t["ssl"] = ssl.clone(),
+                "ws" => t["ws"] = ws.clone(),
+                "quic" => t["quic"] = ssl.clone(),
+                _ => {}
+            }
+        }
+        v.to_string()
+    };
+    for (proto, cipher) in [("shadowsocks", "aes-128-gcm"), ("shadowsocks", "2022-blake3-aes-256-gcm"), ("shadowsocks", "chacha20-ietf-poly1305"), ("vmess", "chacha20-poly1305"), ("trojan", "aes-128-gcm")] {
+        for which in ["none", "ssl", "ws", "ssl+ws", "quic"] {
+            let smodes: Vec<Option<&str>> = if proto == "shadowsocks" && which == "quic" { vec![Some("quic"), Some("tcp_and_quic")] } else if proto == "shadowsocks" { vec![Some("tcp")] } else { vec![None] };
+            for smode in smodes {
+                let (pw_s, pw_c, users) = match proto {
+                    "vmess" => {
+                        let id = gen_uuid(&mut g);
+                        ("unused".to_owned(), id.clone(), vec![("u".to_owned(), id)])
+                    }
+                    _ => {
+                        let k = key_for(&mut g, cipher);
+                        (k.clone(), k, vec![])
+                    }
+                };
+                let stcp = !(proto == "shadowsocks" && smode == Some("quic"));
+                let sudp = which == "quic";
+                v.push(Case {
+                    class: "transport-section".into(),
+                    label: format!("{proto}/{cipher}/{which}/{}", smode.unwrap_or("default")),
+                    server_json: section(&server_json(proto, cipher, smode, &pw_s, &users, false), true, which),
+                    client_json: section(&client_json(proto, cipher, Some("tcp"), &pw_c, false), false, which),
+                    expect: Some((stcp, sudp, true, false)),
+                    failing_side: String::new(),
+                    canary_tcp: true,
+                    canary_udp: false,
+                });
+            }
+        }
+    }
+    // datagrams over the QUIC transport (VMess, Trojan)
+    for (proto, cipher) in [("vmess", "aes-128-gcm"), ("trojan", "aes-128-gcm")] {
+        let (pw_s, pw_c, users) = if proto == "vmess" {
+            let id = gen_uuid(&mut g);
+            ("unused".to_owned(), id.clone(), vec![("u".to_owned(), id)])
+        } else {
+            let k = key_for(&mut g, cipher);
+            (k.clone(), k, vec![])
+        };
+        v.push(Case {
+            class: "transport-section".into(),
+            label: format!("{proto}/{cipher}/quic/datagrams"),
+            server_json: section(&server_json(proto, cipher, None, &pw_s, &users, false), true, "quic"),
+            client_json: section(&client_json(proto, cipher, Some("tcp_and_udp"), &pw_c, false), false, "quic"),
+            expect: Some((true, true, true, true)),
+            failing_side: String::new(),
+            canary_tcp: true,
+            canary_udp: true,
+        });
+    }
     // a missing cipher on a Shadowsocks entry is no cipher at all
     {
         let pw = key_for(&mut g, "aes-256-gcm");
